@@ -145,7 +145,7 @@ Proof.
       * subst es. simpl. now rewrite <- app_assoc.
     + (* T_RBRACKET *)
       destruct (scan r) as [t1 r1] eqn:S1. injection H as <- <- <-.
-      exists [T_RBRACKET], [E_LIST]. repeat split; [|constructor|reflexivity].
+      exists [T_RBRACKET], [E_LIST]. split; [|split; [constructor|reflexivity]].
       eapply st_cons; [exact S1|constructor].
     + (* T_INT *)
       destruct (scan r) as [t1 r1] eqn:S1. destruct t1; try discriminate.
@@ -162,4 +162,199 @@ Proof.
         -- eapply st_cons; [exact S1|]. eapply st_cons; [exact S2|]. exact Hs.
         -- now constructor.
         -- subst es. simpl. now rewrite <- app_assoc.
+Qed.
+
+(* ------------------------------------------------------------------ the LL(1) grammar is the manual's grammar *)
+Lemma od_nil : optdot []. Proof. now left. Qed.
+Lemma od_dot : optdot [T_DOT]. Proof. now right. Qed.
+
+(* from the parser's grammar to the declarative one, per parser state *)
+Definition manual (st : pstate) (ts : list tok) (t : tok) (es : list expr) : Prop :=
+  match st with
+  | P0 => desc ts t es
+  | P2 => tail ts t es
+  | P1 => tail (T_DOT :: ts) t es /\ desc (T_DOT :: ts) t es
+  | P3 => tail (T_LBRACKET :: ts) t es /\ tail (T_DOT :: T_LBRACKET :: ts) t es /\
+          desc (T_LBRACKET :: ts) t es /\ desc (T_DOT :: T_LBRACKET :: ts) t es
+  end.
+
+Lemma G_manual : forall st ts t es, G st ts t es -> manual st ts t es.
+Proof.
+  induction 1; cbn [manual] in *.
+  - tauto.
+  - apply (d_key [] k ts t es od_nil IHG).
+  - tauto.
+  - apply (d_map [] t od_nil).
+  - split; [now apply tl_key|apply (d_key [T_DOT] k ts t es od_dot IHG)].
+  - tauto.
+  - split; [apply (tl_map [T_DOT] t od_dot)|apply (d_map [T_DOT] t od_dot)].
+  - split; [now apply tl_dot|now apply d_root].
+  - tauto.
+  - tauto.
+  - apply (tl_map [] t od_nil).
+  - now apply tl_end.
+  - repeat split.
+    + apply (tl_sub [] _ _ ts t es od_nil (sub_idx i) IHG).
+    + apply (tl_sub [T_DOT] _ _ ts t es od_dot (sub_idx i) IHG).
+    + apply (d_sub [] _ _ ts t es od_nil (sub_idx i) IHG).
+    + apply (d_sub [T_DOT] _ _ ts t es od_dot (sub_idx i) IHG).
+  - repeat split.
+    + apply (tl_sub [] _ _ ts t es od_nil (sub_ins i) IHG).
+    + apply (tl_sub [T_DOT] _ _ ts t es od_dot (sub_ins i) IHG).
+    + apply (d_sub [] _ _ ts t es od_nil (sub_ins i) IHG).
+    + apply (d_sub [T_DOT] _ _ ts t es od_dot (sub_ins i) IHG).
+  - repeat split.
+    + apply (tl_sub [] _ _ ts t es od_nil sub_app IHG).
+    + apply (tl_sub [T_DOT] _ _ ts t es od_dot sub_app IHG).
+    + apply (d_sub [] _ _ ts t es od_nil sub_app IHG).
+    + apply (d_sub [T_DOT] _ _ ts t es od_dot sub_app IHG).
+  - repeat split.
+    + apply (tl_list [] t od_nil).
+    + apply (tl_list [T_DOT] t od_dot).
+    + apply (d_list [] t od_nil).
+    + apply (d_list [T_DOT] t od_dot).
+Qed.
+
+(* from the declarative grammar to the parser's *)
+Lemma subscript_G c e ts t es : subscript c e -> G P2 ts t es -> G P3 (tl c ++ ts) t (e :: es) /\ hd T_EOF c = T_LBRACKET.
+Proof. intros H Hg. destruct H; simpl; split; try reflexivity; now constructor. Qed.
+
+Lemma tail_G : forall ts t es, tail ts t es -> G P2 ts t es.
+Proof.
+  induction 1.
+  - now constructor.
+  - apply g2_dot. now apply g1_end.
+  - destruct H as [-> | ->]; simpl; [apply g2_map|apply g2_dot, g1_map].
+  - destruct H as [-> | ->]; simpl; [apply g2_br, g3_list|apply g2_dot, g1_br, g3_list].
+  - apply g2_dot. now apply g1_id.
+  - destruct (subscript_G c e ts t es H0 IHtail) as [Hg Hh].
+    destruct c as [|c0 c]; [inversion H0|]. simpl in Hh, Hg. subst c0.
+    destruct H as [-> | ->]; simpl; [now apply g2_br|apply g2_dot; now apply g1_br].
+Qed.
+
+Lemma desc_G : forall ts t es, desc ts t es -> G P0 ts t es.
+Proof.
+  intros ts t es H. destruct H.
+  - apply g0_dot. now apply g1_end.
+  - destruct H as [-> | ->]; simpl; [apply g0_map|apply g0_dot, g1_map].
+  - destruct H as [-> | ->]; simpl; [apply g0_br, g3_list|apply g0_dot, g1_br, g3_list].
+  - apply tail_G in H0. destruct H as [-> | ->]; simpl; [now apply g0_id|apply g0_dot; now apply g1_id].
+  - apply tail_G in H1. destruct (subscript_G c e ts t es H0 H1) as [Hg Hh].
+    destruct c as [|c0 c]; [inversion H0|]. simpl in Hh, Hg. subst c0.
+    destruct H as [-> | ->]; simpl; [now apply g0_br|apply g0_dot; now apply g1_br].
+Qed.
+
+Theorem G_desc ts t es : G P0 ts t es <-> desc ts t es.
+Proof. split; [apply (G_manual P0)|apply desc_G]. Qed.
+
+(* ------------------------------------------------------------------ tokens consume input *)
+Definition real (t : tok) : Prop := match t with T_EOF | T_ERROR => False | _ => True end.
+
+Lemma span_digits_len : forall s acc, (length (snd (span_digits s acc)) <= length s)%nat.
+Proof.
+  induction s as [|c s IH]; intros acc; cbn [span_digits snd length]; [lia|].
+  destruct (is_digit c); cbn [snd length]; [specialize (IH (10 * acc + Z.of_N (c - 48))%Z); lia|lia].
+Qed.
+
+Lemma id_loop_rest_aux : forall n s src dest prot d p r,
+    (length s <= n)%nat -> id_loop s src dest prot = Some (d, p, r) -> (length r <= length s)%nat.
+Proof.
+  induction n as [|n IH]; intros s src dest prot d p r Hn H.
+  - destruct s; [|simpl in Hn; lia]. simpl in H. injection H as _ _ <-. simpl. lia.
+  - destruct s as [|c s]; simpl in H.
+    + injection H as _ _ <-. simpl. lia.
+    + destruct (negb (is_idchar c)); [injection H as _ _ <-; lia|].
+      destruct (c =? 92)%N.
+      * destruct s as [|e s2]; [discriminate|].
+        apply IH in H; [simpl in *; lia|simpl in Hn; lia].
+      * apply IH in H; [simpl in *; lia|simpl in Hn; lia].
+Qed.
+
+Lemma scan_consumes : forall s t r, scan s = (t, r) -> real t -> (length r < length s)%nat.
+Proof.
+  induction s as [|c s IH]; intros t r H Hr; [injection H as <- _; contradiction|].
+  rewrite scan_unfold in H.
+  destruct (is_ws c); [specialize (IH t r H Hr); simpl; lia|].
+  destruct (c =? 35)%N; [injection H as _ <-; simpl; lia|].
+  destruct (c =? 43)%N; [injection H as _ <-; simpl; lia|].
+  destruct (c =? 46)%N; [injection H as _ <-; simpl; lia|].
+  destruct (c =? 61)%N; [injection H as _ <-; simpl; lia|].
+  destruct (c =? 91)%N; [injection H as _ <-; simpl; lia|].
+  destruct (c =? 93)%N; [injection H as _ <-; simpl; lia|].
+  destruct (c =? 123)%N; [injection H as _ <-; simpl; lia|].
+  destruct (c =? 125)%N; [injection H as _ <-; simpl; lia|].
+  destruct (is_digit c) eqn:D.
+  - pose proof (span_digits_len s (10 * 0 + Z.of_N (c - 48))%Z) as L.
+    cbn [span_digits] in H. rewrite D in H.
+    destruct (span_digits s (10 * 0 + Z.of_N (c - 48))%Z) as [v rest]. injection H as _ <-. simpl in *. lia.
+  - destruct (is_idchar1 c) eqn:I1; [|injection H as <- _; contradiction].
+    destruct (id_loop (c :: s) 0 [] 0) as [[[d p] rest]|] eqn:L; [|injection H as <- _; contradiction].
+    injection H as _ <-.
+    cbn [id_loop] in L. rewrite (idchar1_idchar c I1) in L. cbn [negb] in L.
+    destruct (c =? 92)%N.
+    + destruct s as [|e s2]; [discriminate|].
+      apply (id_loop_rest_aux (length s2)) in L; [simpl; lia|lia].
+    + apply (id_loop_rest_aux (length s)) in L; [simpl; lia|lia].
+Qed.
+
+Lemma lexes_len : forall d ts t r, lexes d ts t r -> Forall real ts -> (length ts <= length d)%nat.
+Proof.
+  induction 1; intros Hr; [simpl; lia|].
+  inversion Hr; subst. specialize (IHlexes H4). apply scan_consumes in H; [simpl; lia|assumption].
+Qed.
+
+Lemma G_real : forall st ts t es, G st ts t es -> Forall real ts.
+Proof. induction 1; repeat constructor; auto. Qed.
+
+Lemma lexes_stream : forall ts d t0 r0 t r,
+    scan d = (t0, r0) -> (lexes d ts t r <-> stream t0 r0 ts t r).
+Proof.
+  induction ts as [|a ts IH]; intros d t0 r0 t r S.
+  - split; intros H.
+    + inversion H; subst. rewrite S in H0. injection H0 as <- <-. constructor.
+    + apply stream_nil_inv in H as [-> ->]. now constructor.
+  - split; intros H.
+    + inversion H; subst. rewrite S in H3. injection H3 as <- <-.
+      destruct (scan r0) as [t1 r1] eqn:S1. eapply st_cons; [exact S1|]. now apply (IH r0 t1 r1 t r S1).
+    + apply stream_cons_inv in H as [-> H]. destruct (scan r0) as [t1 r1] eqn:S1. cbn [fst snd] in H.
+      eapply lx_cons; [exact S|]. now apply (IH r0 t1 r1 t r S1).
+Qed.
+
+(* ------------------------------------------------------------------ main theorem *)
+Theorem parse_iff_grammar d es t r : parse d = Some (es, t, r) <-> denotes d es t r.
+Proof.
+  unfold parse, denotes. destruct (scan d) as [t0 r0] eqn:Sc. split.
+  - intros H. destruct (parse_loop_sound _ _ _ _ _ _ _ _ H) as [ts [es' [Hs [Hg He]]]].
+    simpl in He. subst es'. exists ts. split; [now apply (lexes_stream ts d t0 r0 t r Sc)|now apply G_desc].
+  - intros [ts [Hl Hd]]. apply G_desc in Hd.
+    pose proof (lexes_len _ _ _ _ Hl (G_real _ _ _ _ Hd)) as Hlen.
+    apply (lexes_stream ts d t0 r0 t r Sc) in Hl.
+    rewrite (parse_loop_complete P0 ts t es Hd (S (S (length d))) t0 r0 r [] Hl) by lia. reflexivity.
+Qed.
+
+(* parse fails exactly on the byte strings that do not start with a descriptor *)
+Corollary parse_none_iff d : parse d = None <-> forall es t r, ~ denotes d es t r.
+Proof.
+  split.
+  - intros H es t r Hd. apply parse_iff_grammar in Hd. congruence.
+  - intros H. destruct (parse d) as [[[es t] r]|] eqn:P; [|reflexivity].
+    exfalso. apply (H es t r). now apply parse_iff_grammar.
+Qed.
+
+(* the denotation is unique *)
+Corollary denotes_unique d es t r es' t' r' :
+  denotes d es t r -> denotes d es' t' r' -> es = es' /\ t = t' /\ r = r'.
+Proof.
+  intros H1 H2. apply parse_iff_grammar in H1, H2. rewrite H1 in H2. injection H2 as <- <- <-. auto.
+Qed.
+
+(* examples of the language *)
+Example denotes_example :
+  denotes [46; 97; 46; 98; 91; 50; 93; 91; 43; 93; 46; 123; 125; 61; 120]%N   (* ".a.b[2][+].{}=x" *)
+          [E_MAP_ELEMENT [97%N]; E_MAP_ELEMENT [98%N]; E_LIST_ELEMENT 2; E_LIST_APPEND; E_MAP] T_ASSIGN [120%N].
+Proof. apply parse_iff_grammar. vm_compute. reflexivity. Qed.
+Example not_a_descriptor : forall es t r, ~ denotes [97; 46; 46; 98]%N es t r \/ t <> T_EOF.  (* "a..b" *)
+Proof.
+  intros es t r. destruct t; try (right; discriminate). left. intros H.
+  apply parse_iff_grammar in H. vm_compute in H. discriminate.
 Qed.
